@@ -451,6 +451,14 @@ def leaf_eval(r):
         ref = c[6] if len(c) > 6 else res
         return (res == ref, res == mv and res != "PANIC", "reader %s rep=%s field=%s data=%s init=%s -> %s (model %s)" % (k, rep, field, data, init, res, mv),
                 "|".join(c[:5]), len(data) > 3, k)
+    if s == "eprog":
+        prog, impl, ref = c[:3]
+        m2 = dict(x.split("=", 1) for x in mv.split(" ") if "=" in x)
+        # property: the Encoder calls produce the reference bytes (protowire); tie: implementation = model; the model's own
+        # specification = the reference; the program meets the theorem's well-typedness premise
+        return (impl == ref, impl == m2.get("pico") and m2.get("spec") == ref and m2.get("ok") == "1" and impl != "PANIC",
+                "encoder program %s -> %s (reference %s, model %s, spec %s, premise %s)" % (prog[:400], impl[:200], ref[:200], (m2.get("pico") or "?")[:200], (m2.get("spec") or "?")[:200], m2.get("ok")),
+                "ep|" + prog[:2000], len(prog) > 12, "eprog")
     if s == "nreader":
         k, rep, field, data, init, wrap, res = c[:7]
         # property half: an error raised inside the callback is still reported after the call returns
@@ -524,9 +532,11 @@ K32 = ("bool", "int32", "sint32", "sfixed32", "uint32", "fixed32", "float", "enu
 
 def check_C13(ctx):
     return run_leaf_property(ctx, dict(
-        theorems=["C13_writer", "C13_nest_message", "C13_nest_always", "C13_nest_present", "C13_reader_other", "C13_reader_wrong_wire", "C13_reader_value", "C13_reader_next", "C13_reader_any_input", "C13_repeated_reader_iteration", "C13_packed_is_reference_unpack"],
-        suites=lambda c: [("writers", ["writers", c.seed] + (["thorough"] if c.tier == "thorough" else [])), ("readers", ["readers", c.seed])],
-        rule="exhaustive grids: 60 typed writers x boundary value alphabet x field-number alphabet (1..2^29-1 boundaries) x dirty/tight buffers, lists across packed length classes; "
+        theorems=["C13_writer", "C13_nest_message", "C13_nest_always", "C13_nest_present", "C13_reader_other", "C13_reader_wrong_wire", "C13_reader_value", "C13_reader_next", "C13_reader_any_input", "C13_repeated_reader_iteration", "C13_packed_is_reference_unpack", "C13_encoder_programs", "C13_absent_message_no_trace"],
+        suites=lambda c: [("writers", ["writers", c.seed] + (["thorough"] if c.tier == "thorough" else [])), ("readers", ["readers", c.seed]),
+                          ("eprogs", ["eprogs", c.seed, _n(c, 4000, 60000)])],
+        rule="programs of Encoder calls (typed writers, RepeatedEnum, UnrecognizedFields, Message/AlwaysMessage/PresentMessage/AlwaysAnyBytes nested to depth 3, callbacks that write and "
+             "then report absence, bodies of 0/127/128/16383/16384 bytes, fresh / reused-with-stale-content / one-byte-capacity buffers); exhaustive grids: 60 typed writers x boundary value alphabet x field-number alphabet (1..2^29-1 boundaries) x dirty/tight buffers, lists across packed length classes; "
              "30 typed readers x pending{same,other} x wire types 0-7 x payload alphabet (valid, empty, truncated, overlong, packed); reference = protobuf-go protowire; "
              "non-trivial = non-default value / payload longer than a tag"))
 
